@@ -11,7 +11,7 @@ from ..selftest import Mutant
 
 ID = "C43"
 TECHNIQUE = "exhaustiveness of the change-category and kind dispatch (K6), CFG ordering of the upload phases with exception edges (K1/K3), two-stage rename table (K6/K1) in the upload plugin (ast)"
-FLOOR = 16
+FLOOR = 27
 UP = "breezy/plugins/upload/cmds.py"
 U = "BzrUploader"
 EXPLANATION = """
